@@ -81,6 +81,7 @@ pub const FOLD_PAIRS: &[(&str, &str)] = &[
     ("\u{3b5}", "\u{3f5}"), ("\u{3ba}", "\u{3f0}"), ("\u{3c0}", "\u{3d6}"), ("\u{3c1}", "\u{3f1}"), ("\u{3c6}", "\u{3d5}"),
     ("\u{1e61}", "\u{1e9b}"),
 ];
+pub const SEG_CHARS: &[&str] = &["a", "\\", "\u{301}", "\u{1F3FB}", "\u{200D}", "\n", "\u{D4E}", "\u{1F1E9}", "("];
 pub const META: &[&str] = &["(", ")", "[", "]", "{", "}", "+", "*", "-", ".", "?", "|", "^", "$", "\\"];
 pub const CLUSTERS: &[&str] = &[
     "\u{1F1E9}\u{1F1EA}",       // regional indicator pair
@@ -101,6 +102,8 @@ pub const CLUSTERS: &[&str] = &[
     // regex metacharacters inside clusters that are NOT split (no mark / other member)
     "(\u{1F3FB}", ")\u{1F3FC}", "[\u{1F3FD}", "{\u{1F3FE}", "?\u{1F3FF}", "|\u{1F3FB}", "*\u{1F3FB}", "+\u{1F3FB}",
     "^\u{1F3FB}", "$\u{1F3FB}", "\u{D4E}(", "\u{D4E}[", ")\u{FF9E}", "-\u{1F3FB}",
+    // ... and metacharacters that are NOT the first character of their cluster (prepended letter, category Lo)
+    "\u{D4E}.", "\u{111C2}?", "\u{D4E}*", "\u{111C3}|", "\u{D4E}+", "\u{D4E}$", "\u{D4E}^", "\u{D4E}{", "\u{D4E})", "\u{D4E}.\u{1F3FB}",
 ];
 pub const SPACES: &[&str] = &[
     " ", "\t", "\n", "\u{b}", "\u{c}", "\r", "\u{85}", "\u{a0}", "\u{1680}", "\u{2000}", "\u{2003}",
@@ -333,6 +336,9 @@ impl Driver {
             "orders" => d.n = q(1200, 15000),
             "stages" => d.n = q(800, 20000),
             "fallbacks" => d.n = q(500, 12000),
+            "big" => d.n = q(40, 600),
+            // all words of length <= 4 (thorough: 5) over one representative of every grapheme-break / category kind
+            "segments" => d.n = (1..=(if thorough { 5 } else { 4 })).map(|k| SEG_CHARS.len().pow(k)).sum(),
             other => panic!("unknown driver {}", other),
         }
         d
@@ -583,6 +589,23 @@ impl Driver {
             }
             // C05: repeats with shared prefixes and different continuations
             "repeats" => {
+                if rng.gen_bool(0.06) {
+                    // literal text spelling a class escape next to members of the class, around a repetition
+                    // (different symbol sequences whose label texts concatenate to the same string)
+                    let (esc, sample, flag) = [("\\d", "1", "digit"), ("\\s", " ", "space"), ("\\w", "a", "word"), ("\\d", "7", "digit")][rng.gen_range(0..4)];
+                    let mid = ["xx", "yyy", "", "abab"][rng.gen_range(0..4)];
+                    let n = rng.gen_range(1..=2);
+                    let tcs0 = vec![
+                        format!("{}{}{}", sample.repeat(n), mid, sample),
+                        format!("{}{}{}", esc.repeat(n), mid, esc),
+                    ];
+                    let mut tcs = tcs0.clone();
+                    tcs.sort();
+                    let c = base.with(flag, true);
+                    let runs = vec![run(c.clone(), &tcs), run(c.with("rep", true), &tcs), run(base.with("rep", true), &tcs),
+                                    RunPlan { cfg: c.with("rep", true), input: vec![tcs0[1].clone(), tcs0[0].clone()], schedule: None }];
+                    return mk(tcs, runs);
+                }
                 let pools: [&'static [&'static str]; 4] = [PLAIN, DIGITS, CLUSTERS, META];
                 let mut letters = letters_from(&mut rng, &[PLAIN], 2);
                 if rng.gen_bool(0.4) {
@@ -908,6 +931,87 @@ impl Driver {
                     run(cls.with("rep", true), &tcs),
                     run(base.with("icase", true), &tcs),
                     run(base.with("nostart", true).with("noend", true), &tcs),
+                ];
+                mk(tcs, runs)
+            }
+            // S3 exhaustively over representatives: base letter, backslash, combining mark (Mn, Extend), emoji modifier
+            // (Sk, Extend: stays in its cluster), ZWJ (Cf, Extend), line feed (Cc, Control), prepended letter (Lo,
+            // Prepend: glues to what FOLLOWS), regional indicator (pairs up), a metacharacter
+            "segments" => {
+                let mut k = i;
+                let mut len = 1;
+                loop {
+                    let block = SEG_CHARS.len().pow(len as u32);
+                    if k < block {
+                        break;
+                    }
+                    k -= block;
+                    len += 1;
+                }
+                let mut w = String::new();
+                for _ in 0..len {
+                    w.push_str(SEG_CHARS[k % SEG_CHARS.len()]);
+                    k /= SEG_CHARS.len();
+                }
+                let tcs = vec![w];
+                let runs = if i % 7 == 0 { vec![run(base.clone(), &tcs), run(base.with("rep", true), &tcs)] } else { vec![run(base.clone(), &tcs)] };
+                mk(tcs, runs)
+            }
+            // larger inputs: 34..64 test cases, tries of 130..400 states with many equal right languages (products of
+            // heads and tails), given in shuffled, sorted and reverse-sorted order - size-dependent behaviour
+            // (sort implementations, size guards, caches) only shows here
+            "big" => {
+                let pools: [&'static [&'static str]; 4] = [PLAIN, PLAIN, DIGITS, META];
+                let mut letters = letters_from(&mut rng, &pools, 4);
+                letters.extend(["a", "b"]);
+                letters.sort();
+                letters.dedup();
+                let word = |rng: &mut StdRng, lo: usize, hi: usize| -> String {
+                    (0..rng.gen_range(lo..=hi)).map(|_| letters[rng.gen_range(0..letters.len())]).collect()
+                };
+                let ntails = rng.gen_range(8..=14);
+                let mut tails: Vec<String> = vec![];
+                while tails.len() < ntails {
+                    let mut w = word(&mut rng, 3, 7);
+                    if rng.gen_bool(0.3) {
+                        // repeats n and n+1 times with different continuations (the shape of the known widening)
+                        let u = letters[rng.gen_range(0..letters.len())];
+                        w = format!("{}{}{}", u.repeat(rng.gen_range(3..=4)), w, if rng.gen_bool(0.5) { "q" } else { "rs" });
+                    }
+                    if !tails.contains(&w) {
+                        tails.push(w);
+                    }
+                }
+                let heads: Vec<&str> = ["1", "2", "x", "yz"][..rng.gen_range(2..=4)].to_vec();
+                let mut tcs: Vec<String> = vec![];
+                for h in &heads {
+                    for t in &tails {
+                        tcs.push(format!("{}{}", h, t));
+                    }
+                }
+                while tcs.len() < 34 {
+                    let w = word(&mut rng, 2, 8);
+                    if !tcs.contains(&w) {
+                        tcs.push(w);
+                    }
+                }
+                tcs.truncate(64);
+                tcs.sort();
+                tcs.dedup();
+                let mut shuffled = tcs.clone();
+                shuffled.shuffle(&mut rng);
+                let mut reversed = tcs.clone();
+                reversed.reverse();
+                let mut by_len = tcs.clone();
+                by_len.sort_by_key(|t| std::cmp::Reverse(t.len()));
+                let rep = base.with("rep", true);
+                let runs = vec![
+                    RunPlan { cfg: base.clone(), input: shuffled.clone(), schedule: None },
+                    RunPlan { cfg: base.clone(), input: reversed.clone(), schedule: None },
+                    RunPlan { cfg: rep.clone(), input: shuffled, schedule: None },
+                    RunPlan { cfg: rep.clone(), input: by_len, schedule: None },
+                    RunPlan { cfg: rep, input: reversed, schedule: None },
+                    RunPlan { cfg: base.with("noend", true), input: tcs.clone(), schedule: None },
                 ];
                 mk(tcs, runs)
             }
